@@ -426,6 +426,54 @@ def gen_wallpress(rng):
     return {"labels": labels, "opts": opts}
 
 
+def run_siblings(rng):
+    """Several INDEPENDENT layouts in one process - separate engines, separate Node objects, the same options - whose label sets
+    differ in one or two data positions only (so that whole layers recur with other stub positions underneath): nothing that
+    was solved for one may reach the next.  Every layout is recorded and judged on its own."""
+    n = rng.randint(5, 16)
+    span = rng.choice([40, 90, 200])
+    wpool = rng.choice([[20], [10, 20, 25], [5, 37.5, 12], [8, 8, 30]])
+    labels = [[half(rng, 0, span), rng.choice(wpool)] for _ in range(n)]
+    ns = rng.choice([3, 3, 0, 1, 5])
+    req = sum(w for _, w in labels) + (n - 1) * ns
+    mn = rng.choice([0, 0, -10.5])
+    opts = {"nodeSpacing": ns, "algorithm": rng.choice(["overlap", "simple", "simple"]), "density": rng.choice([0.85, 0.75, 1]),
+            "stubWidth": rng.choice([1, 1, 0, 2.5]), "minPos": mn,
+            "maxPos": mn + int(req * rng.choice([0.3, 0.45, 0.6, 0.9])) + rng.choice([0, 0.5])}
+    out = []
+    cur = [list(l) for l in labels]
+    for step in range(rng.choice([2, 3, 4])):
+        out.append(run_instance({"labels": [list(l) for l in cur], "opts": dict(opts)}, 4, True))
+        nxt = [list(l) for l in cur]
+        for _ in range(rng.choice([1, 1, 2])):
+            k = rng.randrange(n)
+            nxt[k][0] = max(0.0, nxt[k][0] + rng.choice([-1, 1]) * rng.choice([0.5, 2, 5, 10, 15]))
+        cur = nxt if rng.random() < 0.8 else [list(l) for l in labels]
+    return out
+
+
+def gen_centi(rng):
+    """Values with two decimals (what a scale hands over is not on the half-unit lattice): exact in units of 1/200, so the
+    optimum is still decided exactly.  Sizes stay inside the 32-bit envelope of the pool-adjacent-violators products."""
+    n = rng.randint(1, 26)
+    span = rng.choice([30, 100, 400, 900])
+    c = lambda lo, hi: rng.randint(int(lo * 100), int(hi * 100)) / 100.0
+    labels = [[c(0, span), rng.choice([c(1, 60), c(1, 60), 37.5, 10, 12.34])] for _ in range(n)]
+    if rng.random() < 0.3:
+        for _ in range(n // 3):
+            a, b = rng.randrange(n), rng.randrange(n)
+            labels[a] = list(labels[b])
+    mn = rng.choice([0, 0, None, 12.3, -7.77])
+    opts = {"nodeSpacing": rng.choice([3, 3, 0.7, 4.25, 0, 1.01]), "algorithm": rng.choice(["overlap", "overlap", "simple", "none"]),
+            "density": rng.choice([0.75, 0.85, 0.5, 1]), "stubWidth": rng.choice([1, 0.5, 1.25, 0]),
+            "minPos": mn, "maxPos": rng.choice([None, None, 360.0, 400, 904.4, 150.05])}
+    if opts["maxPos"] is not None and mn is not None and rng.random() < 0.2:
+        req = sum(w for _, w in labels) + (n - 1) * opts["nodeSpacing"]
+        opts["maxPos"] = round(mn + req + rng.choice([0, 0.01, -0.01, 0.5, 7.77]), 2)
+        opts["algorithm"] = "none"
+    return {"labels": labels, "opts": opts}
+
+
 def gen_float(rng):
     n = rng.randint(1, 30)
     span = rng.choice([50, 400, 1000])
@@ -451,10 +499,15 @@ def main():
     elif mode == "direct":
         while len(recs) < job["count"]:
             recs += run_direct(rng)
+    elif mode == "sibling":
+        while len(recs) < job["count"]:
+            recs += run_siblings(rng)
     else:
         while len(recs) < job["count"]:
             if mode == "float":
                 r = run_instance(gen_float(rng), 1000, False)
+            elif mode == "centi":
+                r = run_instance(gen_centi(rng), 200, True)
             elif mode == "relayout":
                 r = run_relayout(rng)
             elif mode == "bounds":
